@@ -58,6 +58,7 @@ DEFAULT_FEATURES: T.Dict[str, T.Any] = {
     'unity_size': 4,       # the -Dunity_size value in use: source counts are biased towards its exact multiples
     'extraction': 0.45,    # probability that a target consumes extracted objects of an earlier one
     'pch': 0.15,
+    'prereq_cases': 0.7,   # probability (per project part) of the test/benchmark prerequisite cases with private helpers
     'pipe_names': False,   # names containing `|` (ninja cannot express them; must be rejected at configure time)
 }
 
@@ -110,6 +111,7 @@ class _Gen:
         self.nvar = 0
         self.nfile = 0
         self.layout_sensitive = False
+        self.overrides: T.List[dict] = []
 
     # ---- helpers
     def q(self, s: str) -> str:
@@ -458,6 +460,119 @@ class _Gen:
         self.tests.append({'name': name, 'exe': exe['var'], 'depends': [d['var'] for d in deps + argt],
                            'benchmark': bench, 'project': project})
 
+    PREREQ_WAYS = ['exe', 'arg-target', 'arg-ct', 'arg-ct-index', 'depends', 'depends-ct', 'override-exe', 'override-arg',
+                   'ct-exe']
+
+    def mk_prereq_cases(self, mdir, project, ways=None) -> None:
+        """Every way a target becomes a test / benchmark prerequisite, each with a *fresh helper target* that is
+        build_by_default: false and used nowhere else — so it hangs below `meson-test-prereq` / `meson-benchmark-prereq`
+        only through that phony's own input list.  spec['tests'] records which helper each test needs."""
+        rng = self.rng
+        self.cur = mdir
+        if ways is None:
+            ways = rng.sample(self.PREREQ_WAYS, rng.randint(2, 4))
+        self.nvar += 1
+        mainv = f'pm{self.nvar}'
+        msrc = self.src(mdir, stem=f'pmain{self.nvar}', body='int main(void) { return 0; }\n')
+        mname = f'prq main{self.nvar}'
+        self.emit(mdir, f"{mainv} = executable({self.q(mname)}, {self.q(msrc)})")
+        self.add_target(var=mainv, name=mname, kind='executable', dir=mdir, project=project, outputs=None, bbd=True,
+                        srcs=[msrc])
+
+        def helper_exe():
+            self.nvar += 1
+            v = f'ph{self.nvar}'
+            src = self.src(mdir, stem=f'hlp{self.nvar}', body='int main(void) { return 0; }\n')
+            name = rng.choice(['hlp', 'h elper', 'h:lp']) + str(self.nvar)
+            self.emit(mdir, f"{v} = executable({self.q(name)}, {self.q(src)}, build_by_default: false)")
+            return self.add_target(var=v, name=name, kind='executable', dir=mdir, project=project, outputs=None, bbd=False,
+                                   srcs=[src], helper=True)
+
+        def helper_ct(nout=1):
+            self.nvar += 1
+            v = f'pc{self.nvar}'
+            outs = [f'hct{self.nvar}_{i}.dat' for i in range(nout)]
+            self.emit(mdir, f"{v} = custom_target({self.q('hct' + str(self.nvar))}, output: [{', '.join(self.q(o) for o in outs)}], "
+                            f"command: [gen, '@OUTPUT@'], build_by_default: false)")
+            return self.add_target(var=v, name='hct' + str(self.nvar), kind='custom_target', dir=mdir, project=project,
+                                   outputs=outs, bbd=False, helper=True)
+        for way in ways:
+            bench = rng.random() < 0.4
+            fn = 'benchmark' if bench else 'test'
+            tname = f'prq {way} {len(self.tests)}'
+            exe_expr, exe_var, kws, needs = mainv, mainv, [], []
+            if way == 'exe':
+                h = helper_exe()
+                exe_expr = exe_var = h['var']
+            elif way == 'arg-target':
+                h = helper_exe()
+                kws.append(f"args: ['--x', {h['var']}]")
+                needs.append(h['var'])
+            elif way == 'arg-ct':
+                h = helper_ct()
+                kws.append(f"args: [{h['var']}]")
+                needs.append(h['var'])
+            elif way == 'arg-ct-index':
+                h = helper_ct(2)
+                kws.append(f"args: [{h['var']}[1]]")
+                needs.append(h['var'])
+            elif way == 'depends':
+                h = helper_exe()
+                kws.append(f"depends: [{h['var']}]")
+                needs.append(h['var'])
+            elif way == 'depends-ct':
+                h = helper_ct(2)
+                kws.append(f"depends: {h['var']}[0]" if rng.random() < 0.5 else f"depends: [{h['var']}]")
+                needs.append(h['var'])
+            elif way in ('override-exe', 'override-arg'):
+                h = helper_exe()
+                pn = f'ovprog{self.nvar}'
+                pv = f'pp{self.nvar}'
+                self.emit(mdir, f"meson.override_find_program({self.q(pn)}, {h['var']})")
+                # the lookup may happen in another directory of the same project later on; here: right away
+                self.emit(mdir, f"{pv} = find_program({self.q(pn)})")
+                if way == 'override-exe':
+                    exe_expr, exe_var = pv, h['var']
+                else:
+                    kws.append(f"args: [{pv}, 'x']")
+                    needs.append(h['var'])
+                self.overrides.append({'prog': pn, 'var': h['var'], 'project': project})
+            elif way == 'ct-exe':
+                h = helper_ct()
+                exe_expr = exe_var = h['var']
+            if rng.random() < 0.3:
+                kws.append("workdir: meson.current_build_dir()")
+            if rng.random() < 0.3:
+                kws.append("env: ['A=1', 'B=' + meson.current_build_dir()]")
+            self.emit(mdir, f"{fn}({', '.join([self.q(tname), exe_expr] + kws)})")
+            self.tests.append({'name': tname, 'exe': exe_var, 'depends': needs, 'benchmark': bench, 'project': project,
+                               'way': way})
+
+    def mk_override_use(self, mdir, project) -> None:
+        """a test in *this* directory/project whose program or argument is an executable overridden elsewhere
+        (a subdirectory or a subproject configured earlier)"""
+        rng = self.rng
+        cands = [o for o in self.overrides if not o.get('used_elsewhere')]
+        if not cands:
+            return
+        o = rng.choice(cands)
+        self.nvar += 1
+        pv = f'pq{self.nvar}'
+        self.emit(mdir, f"{pv} = find_program({self.q(o['prog'])})")
+        bench = rng.random() < 0.4
+        fn = 'benchmark' if bench else 'test'
+        tname = f'prq elsewhere {len(self.tests)}'
+        mains = [t for t in self.targets if t['kind'] == 'executable' and t['project'] == project and t.get('bbd')]
+        if mains and rng.random() < 0.6:
+            m = rng.choice(mains)
+            self.emit(mdir, f"{fn}({self.q(tname)}, {m['var']}, args: [{pv}])")
+            self.tests.append({'name': tname, 'exe': m['var'], 'depends': [o['var']], 'benchmark': bench, 'project': project,
+                               'way': 'override-arg-elsewhere'})
+        else:
+            self.emit(mdir, f"{fn}({self.q(tname)}, {pv})")
+            self.tests.append({'name': tname, 'exe': o['var'], 'depends': [], 'benchmark': bench, 'project': project,
+                               'way': 'override-exe-elsewhere'})
+
     def mk_alias(self, mdir, project):
         rng = self.rng
         self.cur = mdir
@@ -526,6 +641,14 @@ class _Gen:
                     self.fill_dir(os.path.join(mdir, nd), project, 1 + share // 2)
         if rng.random() < self.f['tests']:
             self.mk_test(root, project)
+        if rng.random() < self.f['prereq_cases']:
+            where = root
+            if subdirs and rng.random() < 0.5:
+                where = os.path.join(root, rng.choice(subdirs))
+            self.mk_prereq_cases(where, project)
+        if rng.random() < self.f['prereq_cases']:
+            # an override made in a subdirectory or (for the main project) in the subproject, used from the project root
+            self.mk_override_use(root, project)
 
     def plant_collision(self, kind: str) -> None:
         rng = self.rng
